@@ -119,6 +119,10 @@ package connectconformance
 //@   ensures !held[r.mu]
 //@   assume_ensures gVerdict[r] == result //# ghost bookkeeping only: records the verdict for Run's contract
 //@   ensures @verdict result == ((forall k string :: has(r.outcomes, k) ==> !specBad(r.outcomes[k])) && len(r.outcomes) >= r.totalTestCount)
+//@   //# the totals: after the "Total cases" line there is one more line for each non-empty
+//@   //# category that it does not mention (could not run, failed as expected) - nothing is left out
+//@   snapshot_at "Total cases: %d": prAtTotals = prN[printer]
+//@   assert_at "return failed == 0 && couldNotRun == 0": prN[printer] == prAtTotals + 1 + (couldNotRun > 0 ? 1 : 0) + (expectedFailures > 0 ? 1 : 0)
 //@   loop 0: invariant held[r.mu] && r.outcomes != nil && len(testCaseNames) == rangepos
 //@           invariant forall i int :: 0 <= i && i < rangepos ==> testCaseNames[i] == rangekey(i)
 //@   loop 1: invariant held[r.mu] && r.outcomes != nil && failed >= 0 && couldNotRun >= 0 && succeeded >= 0 && expectedFailures >= 0
